@@ -1,5 +1,6 @@
 import Driver.Common
 import LiskVerif.Model.Sync
+import LiskVerif.Model.SyncCtx
 import LiskVerif.Model.Codec
 import LiskVerif.Gen.Schemas
 
@@ -245,25 +246,47 @@ def blockSyncMulti (s : Scn) (b : Behav) (target : Blk Id) : Out Id :=
   let ps := connectedPeers s b target
   blockSyncPeers (applies b) s.n s.finQ s.mhpQ s.chainQ ps ((answeringFrom 0 ps).map (·.id)) 0
 
-def runSync (s : Scn) (b : Behav) : String :=
+/-- `sync ... rb=d<k> rmhp=<m> rmhpc=<c>` (harness/c19/rollback.go): before the synchronisation the requester's
+tip was rolled back by k blocks (`Executer.deleteBlock`): its chain ends at height Q-k, the header of the new tip
+has maxHeightPrevoted m, the BFT store of the node has maxHeightPrecommitted c, the stored finalized height is
+still finQ.  Returns the scenario as it is then and the precommitted height of the BFT store (without rollback:
+the stored finalized height, the two agree on a chain that only grew). -/
+def rolledBack (s : Scn) (w : List String) : Scn × Nat :=
+  match kvs w "rb" with
+  | some v =>
+    match ((v.drop 1).toString).toNat? with
+    | some k =>
+      if k ≤ s.lenQ then
+        ({ s with lenQ := s.lenQ - k, fork := min s.fork (s.lenQ - k), mhpQ := (kv w "rmhp").getD 0 },
+         (kv w "rmhpc").getD 0)
+      else (s, s.finQ)
+    | none => (s, s.finQ)
+  | none => (s, s.finQ)
+
+/-- one `sync` op: the node state (chain, stored finalized height, BFT store) is handed to `SyncCtx.syncNode`, which
+builds the sync context from it (`createSyncContext`: the finalized block is read at the STORED finalized height)
+and runs the synchroniser -/
+def runSync (s : Scn) (b : Behav) (storeMhpc : Nat) : String :=
   let q := s.chainQ
   let c := servedChain s b
   match (match b.target with | some t => (if t = 0 then none else c[t]?) | none => c.getLast?) with
   | none => "bad-op"
   | some target =>
+    let stale : Bool := match b.age with | some a => shouldSync s.n (Int.ofNat a) 0 | none => true
     let mode := match b.force with
       | some m => m
-      | none => chooseMode s.n s.lenQ target.height true
-          (match b.age with | some a => shouldSync s.n (Int.ofNat a) 0 | none => true)
-    let out : Out Id := if b.force.isNone && !target.ok then ⟨q, [], false, some .invalidBlock⟩ else match mode with
-      | .fast => fastSync (applies b) (fun _ => b.finPeak) s.n s.finQ q target (mkPeer s b)
-      | .block =>
-        if b.extra.isEmpty && !b.mainFail then
-          blockSync (applies b) s.n s.finQ s.mhpQ q
-            { peer := 0, height := target.height, mhp := (if b.target.isSome then b.tmhp else s.mhpP), id := target.id }
-            (mkPeer s b)
-        else blockSyncMulti s b target
-      | .none => ⟨q, [], false, none⟩
+      | none => chooseMode s.n s.lenQ target.height true stale
+    let st : SyncCtx.NodeSt Id := { chain := q, marker := s.finQ }
+    let env : SyncCtx.Env Id :=
+      { applies := applies b, mhpc := fun c => if c.length == q.length then storeMhpc else 0, nvals := fun _ => s.n }
+    let out : Out Id :=
+      if mode == .block && !(b.extra.isEmpty && !b.mainFail) then
+        (if b.force.isNone && !target.ok then ⟨q, [], false, some .invalidBlock⟩ else blockSyncMulti s b target)
+      else
+        match SyncCtx.syncNode .marker env (fun _ => b.finPeak) st s.mhpQ target
+            (if b.target.isSome then b.tmhp else s.mhpP) true stale b.force (mkPeer s b) with
+        | some o => o
+        | none => ⟨q, [], false, some .requestFailed⟩
     let tip := match out.chain.getLast? with | some t => tokOf s t.id | none => "-"
     "mode=" ++ modeStr mode ++ " err=" ++ (if out.err.isSome then "1" else "0") ++ " tip=" ++ tip
       ++ " h=" ++ toString (out.chain.length - 1) ++ " ban=" ++ (if out.banned then "1" else "0")
@@ -330,7 +353,9 @@ def step (s : Scn) (w : List String) : Scn × String :=
     (s, match parseTips 0 (tips.filter (· ≠ "-")) with
       | some l => bestStr l
       | none => "bad-op")
-  | "sync" :: r => (s, runSync s (parseBehav s r))
+  | "sync" :: r =>
+    let (s', storeMhpc) := rolledBack s r
+    (s, runSync s' (parseBehav s' r) storeMhpc)
   | ["dl", st, sh, et, eh] =>
     (s, match parseTok s st, sh.toNat?, parseTok s et, eh.toNat? with
       | some sid, some sh, some eid, some eh =>
